@@ -9,6 +9,7 @@ CONSTANTS
   ClearFirst = FALSE
   NarrowExcept = FALSE
   NoAckWait = FALSE
+  CacheDead = FALSE
 INVARIANT TypeOK
 PROPERTY Live_Reaped
 CHECK_DEADLOCK FALSE
